@@ -446,6 +446,7 @@ expand(struct token *t)
 {
 	struct macro *m;
 	bool space;
+	size_t i;
 
 	if (t->kind != TIDENT)
 		return false;
@@ -460,6 +461,13 @@ expand(struct token *t)
 			return false;
 		expandfunc(m);
 	}
+	/*
+	The replacement list is shared by all expansions of the
+	macro; marks left on its tokens by an earlier expansion
+	do not apply to this one.
+	*/
+	for (i = 0; i < m->ntoken; ++i)
+		m->token[i].hide = false;
 	ctxpush(m->token, m->ntoken, m, space);
 	m->hide = true;
 	++macrodepth;
